@@ -27,6 +27,26 @@ static const double INF = std::numeric_limits<double>::infinity();
 static const char* AUXN[6] = {"phi", "beta", "theta", "mu", "chi", "xi"};
 static const double WGS84_F = 1 / 298.257223563;
 
+// ---------------------------------------------------------------- known-finding regimes
+// A known finding is ONE key per defect, decided from the INPUT REGIME only.  While a Regime object is alive every monitor that
+// fires reports under the regime key (the monitor's own key goes into detail.monitor); outside any regime the monitor keys apply.
+static std::string g_regime;
+struct Regime { std::string old; explicit Regime(const std::string& r) : old(g_regime) { g_regime = r; } ~Regime() { g_regime = old; } };
+static void VIOL(Ctx& c, const std::string& key, const std::string& cls, const J& d) {
+  if (g_regime.empty() || key == g_regime) c.viol(key, cls, d); else c.viol(g_regime, cls, J(d).str("monitor", key)); }
+// exact-method AuxLatitude regimes, checked in this fixed order (series method: none)
+//   zone 2: some tangent of the point (or the crude Newton start tan/r^2 pushed through the conformal map) above 1e290
+//   zone 1: some tangent below 1e-290 after division by max((b/a)^2,(a/b)^2)
+//   authalic latitude involved and b/a > 4;  authalic involved, 0<|f|<1e-6 and tan(phi) > 1e150
+static std::string auxlat_regime(double ba, double f, bool exact, bool xi, int zone, q128 tphi) {
+  if (!exact) return "";
+  if (zone == 2) return "regime:C15/auxlat/exact/overflow-zone(|tan|*amp>1e290)";
+  if (zone == 1) return "regime:C15/auxlat/exact/underflow-zone(|tan|/amp<1e-290)";
+  if (xi && ba > 4) return "regime:C15/auxlat/exact/xi/prolate-b/a>4";
+  if (xi && f != 0 && std::fabs(f) < 1e-6 && tphi > 1e150Q) return "regime:C15/auxlat/exact/xi/|f|<1e-6-tanphi>1e150";
+  return "";
+}
+
 // ---------------------------------------------------------------- tolerances (units: eps, relative error of the tangent)
 static const double K_EXACT = 16;        // exact method, any b/a in [0.01,100]
 static const double K_SERIES = 24;       // series method, |f| <= 1/150
@@ -179,29 +199,24 @@ static void sec_conv(Ctx& c, uint64_t idx) {
         bool xi = from == ref::AUX_XI || to == ref::AUX_XI;
         c.obs(std::string("auxlat exact ") + (xi ? "xi" : "mu/chi") + (E.axes ? " axes-ctor" : " af-ctor") + " b/a " + bk + " rel err tan / conditioning [eps]", err / cond, w);
       }
+      bool xi_ = from == ref::AUX_XI || to == ref::AUX_XI;
+      Regime rg_(auxlat_regime(E.ba, E.f, exact, xi_, normal ? 0 : (uflow ? 1 : 2), tphi));
       if (!(err <= K)) {
         std::string key = std::string("oracle:C15/auxlat/") + mn + "/" + pair;
-        bool xi = from == ref::AUX_XI || to == ref::AUX_XI;
         if (std::isnan(out.y()) || std::isnan(out.x())) key = std::string("oracle:C15/auxlat/") + mn + "/nan-output";
-        else if (!normal) key = std::string("oracle:C15/auxlat/") + mn + "/inaccurate";
-        // narrow keys for regimes that are reported separately (normal zone)
-        else if (exact && xi && E.ba > 4 && err <= 32 * E.ba * E.ba) key = "oracle:C15/auxlat/exact/xi/prolate-b/a>4";
-        else if (exact && xi && E.f < 0 && E.f > -1e-6 && tphi > 1e150Q) key = "oracle:C15/auxlat/exact/xi/prolate-|f|<1e-6-tanphi>1e150";
-        else if (exact && xi && E.f > 0 && E.f < 1e-6 && tphi > 1e150Q) key = "oracle:C15/auxlat/exact/xi/oblate-f<1e-6-tanphi>1e150";
-        else if (exact && !E.axes && E.ba < 0.25 && (from >= 3 || to >= 3) && err <= 2 / (E.ba * E.ba)) key = "oracle:C15/auxlat/exact/af-ctor/oblate-b/a<0.25";
-        c.viol(key + zone, cls, w);
+        VIOL(c, key, cls, w);
       }
       // quadrant / sign preservation and fixed points
       bool sy_ok = std::signbit(out.y()) == std::signbit(ti.y), sx_ok = std::signbit(out.x()) == std::signbit(ti.x);
-      if (!sy_ok || !sx_ok) c.viol(std::string("law:C15/auxlat/quadrant-preserved/") + mn, cls, w);
-      if (ti.y == 0 && !(out.y() == 0 && out.x() != 0)) c.viol(std::string("law:C15/auxlat/fixed-point-0/") + mn, cls, w);
-      if (ti.x == 0 && !(std::isinf(out.y() / out.x()))) c.viol(std::string("law:C15/auxlat/fixed-point-90/") + mn, cls, w);
+      if (!sy_ok || !sx_ok) VIOL(c, std::string("law:C15/auxlat/quadrant-preserved/") + mn, cls, w);
+      if (ti.y == 0 && !(out.y() == 0 && out.x() != 0)) VIOL(c, std::string("law:C15/auxlat/fixed-point-0/") + mn, cls, w);
+      if (ti.x == 0 && !(std::isinf(out.y() / out.x()))) VIOL(c, std::string("law:C15/auxlat/fixed-point-90/") + mn, cls, w);
       if (ti.x != 0 && ti.y != 0 && normal && (out.x() == 0 || out.y() == 0))
-        c.viol(std::string("law:C15/auxlat/spurious-fixed-point/") + mn, cls, w);
+        VIOL(c, std::string("law:C15/auxlat/spurious-fixed-point/") + mn, cls, w);
       // oddness: bit-exact
       {
         AuxAngle o2 = L.Convert(from, to, AuxAngle(-ti.y, ti.x), exact);
-        if (!(vh::same_bits(o2.y(), -out.y()) && vh::same_bits(o2.x(), out.x()))) c.viol(std::string("law:C15/auxlat/odd/") + mn, cls, w);
+        if (!(vh::same_bits(o2.y(), -out.y()) && vh::same_bits(o2.x(), out.x()))) VIOL(c, std::string("law:C15/auxlat/odd/") + mn, cls, w);
       }
       // conversion o inverse = identity (only when everything is comfortably representable)
       if (normal && from != to) {
@@ -213,35 +228,31 @@ static void sec_conv(Ctx& c, uint64_t idx) {
         if (!(e2 <= K_ROUNDTRIP * cond)) {
           std::string key = std::string("law:C15/auxlat/roundtrip/") + mn + "/" + pair;
           if (std::isnan(back.y()) || std::isnan(back.x())) key = std::string("law:C15/auxlat/roundtrip/") + mn + "/nan-output";
-          else if (exact && (to == ref::AUX_XI || from == ref::AUX_XI) && E.ba > 4 && e2 <= 64 * E.ba * E.ba) key = "oracle:C15/auxlat/exact/xi/prolate-b/a>4";
-          else if (exact && (to == ref::AUX_XI || from == ref::AUX_XI) && E.f < 0 && E.f > -1e-6 && tphi > 1e150Q) key = "oracle:C15/auxlat/exact/xi/prolate-|f|<1e-6-tanphi>1e150";
-          else if (exact && (to == ref::AUX_XI || from == ref::AUX_XI) && E.f > 0 && E.f < 1e-6 && tphi > 1e150Q) key = "oracle:C15/auxlat/exact/xi/oblate-f<1e-6-tanphi>1e150";
-          else if (exact && !E.axes && E.ba < 0.25 && e2 <= 4 / (E.ba * E.ba)) key = "law:C15/auxlat/roundtrip/exact/af-ctor/oblate-b/a<0.25";
-          c.viol(key, cls, J(w).f("back_y", back.y()).f("back_x", back.x()).f("roundtrip_err_eps", e2));
+          VIOL(c, key, cls, J(w).f("back_y", back.y()).f("back_x", back.x()).f("roundtrip_err_eps", e2));
         }
       }
       // exact-method pieces: ToAuxiliary (+ derivative) and FromAuxiliary
       if (exact && from == 0 && to != 0) {
         double diff = vh::sentinel(1); AuxAngle o3 = L.ToAuxiliary(to, zin, &diff);
         double e3 = tan_err_eps(o3.y(), o3.x(), Tref, dslack);
-        if (!(e3 <= K) && err <= K) c.viol(std::string("oracle:C15/auxlat/ToAuxiliary/") + AUXN[to], cls, J(w).f("ToAux_y", o3.y()).f("ToAux_x", o3.x()).f("ToAux_err_eps", e3));
+        if (!(e3 <= K) && err <= K) VIOL(c, std::string("oracle:C15/auxlat/ToAuxiliary/") + AUXN[to], cls, J(w).f("ToAux_y", o3.y()).f("ToAux_x", o3.x()).f("ToAux_err_eps", e3));
         if (Tin > 1e-150Q && Tin < 1e150Q && err <= K && normal) {
           q128 dref = R.dfwd(to, Tin); double ed = (double)(fabsq(diff - dref) / dref) / EPS;
           c.obs("auxlat ToAuxiliary diff rel err [eps]", ed, J(w).f("diff", diff).str("diff_ref", ref::qstr(dref)));
           c.count(std::string("conv/ToAuxiliary-diff/") + AUXN[to] + "/" + E.regime, vh::hmix(h, (uint64_t)77));
-          if (!(ed <= 4 * K)) c.viol(std::string("oracle:C15/auxlat/ToAuxiliary-diff/") + AUXN[to], cls, J(w).f("diff", diff).str("diff_ref", ref::qstr(dref)).f("diff_err_eps", ed));
+          if (!(ed <= 4 * K)) VIOL(c, std::string("oracle:C15/auxlat/ToAuxiliary-diff/") + AUXN[to], cls, J(w).f("diff", diff).str("diff_ref", ref::qstr(dref)).f("diff_err_eps", ed));
         }
       }
       if (exact && to == 0 && from != 0) {
         int niter = -1; AuxAngle o3 = L.FromAuxiliary(from, zin, &niter);
         double e3 = tan_err_eps(o3.y(), o3.x(), Tref, dslack);
-        if (!(e3 <= K) && err <= K) c.viol(std::string("oracle:C15/auxlat/FromAuxiliary/") + AUXN[from], cls, J(w).f("FromAux_y", o3.y()).f("FromAux_x", o3.x()).f("FromAux_err_eps", e3));
+        if (!(e3 <= K) && err <= K) VIOL(c, std::string("oracle:C15/auxlat/FromAuxiliary/") + AUXN[from], cls, J(w).f("FromAux_y", o3.y()).f("FromAux_x", o3.x()).f("FromAux_err_eps", e3));
         bool subn = Tin < (q128)std::numeric_limits<double>::min();
         c.obs(subn ? "auxlat FromAuxiliary Newton iterations (subnormal tangent)" : "auxlat FromAuxiliary Newton iterations (normal tangent)", niter, w);
         // unchanged tree: at most 15 iterations for tangents in the normal range; the safeguarded Newton must not degenerate into bisection
-        if (!subn && niter > 40 && niter < 1000) c.viol(std::string("law:C15/auxlat/FromAuxiliary-slow-convergence/") + AUXN[from], cls, J(w).i("niter", niter));
+        if (!subn && niter > 40 && niter < 1000) VIOL(c, std::string("law:C15/auxlat/FromAuxiliary-slow-convergence/") + AUXN[from], cls, J(w).i("niter", niter));
         if (niter >= 1000) { c.event(subn ? "FromAuxiliary Newton cap numit_=1000 reached (subnormal tangent)" : "FromAuxiliary Newton cap numit_=1000 reached (normal tangent)");
-          if (!subn) c.viol(std::string("law:C15/auxlat/FromAuxiliary-newton-cap-reached/") + AUXN[from], cls, J(w).i("niter", niter)); }
+          if (!subn) VIOL(c, std::string("law:C15/auxlat/FromAuxiliary-newton-cap-reached/") + AUXN[from], cls, J(w).i("niter", niter)); }
       }
     }
   }
@@ -318,16 +329,17 @@ static void sec_deg(Ctx& c, uint64_t idx) {
     if (c.want_sample(cls)) c.sample(cls, w);
     c.obs(std::string("auxlat degree overload ") + mn + " err as rel tan [eps] / conditioning", err / cond, w);
     double K = (exact ? K_EXACT : K_SERIES) * cond;
-    if (!(err <= K)) c.viol(narrow(E, from, to, exact, err, std::string("oracle:C15/auxlat-deg/") + mn + "/" + AUXN[from] + "->" + AUXN[to]), cls, w);
+    Regime rg_(auxlat_regime(E.ba, E.f, exact, from == ref::AUX_XI || to == ref::AUX_XI, 0, tphi));
+    if (!(err <= K)) VIOL(c, std::string("oracle:C15/auxlat-deg/") + mn + "/" + AUXN[from] + "->" + AUXN[to], cls, w);
     // multi-turn consistency: same reduced angle with 0 turns gives the same result up to the 360 m shift
     if (turns != 0) {
       double g0 = L.Convert(from, to, (double)zr == zr ? (double)zr : base, exact);
       q128 dd = fabsq(((q128)got - 360 * m) - (q128)g0);
-      if (!(dd <= 4 * (q128)ref::ulp_d(got) + 4 * (q128)ref::ulp_d(zeta) + (q128)deg_err_eps(0, 0) )) c.viol(std::string("law:C15/auxlat-deg/turns-not-additive/") + mn, cls, J(w).f("zero_turn_result", g0));
+      if (!(dd <= 4 * (q128)ref::ulp_d(got) + 4 * (q128)ref::ulp_d(zeta) + (q128)deg_err_eps(0, 0) )) VIOL(c, std::string("law:C15/auxlat-deg/turns-not-additive/") + mn, cls, J(w).f("zero_turn_result", g0));
     }
     // oddness
     double gm = L.Convert(from, to, -zeta, exact);
-    if (!(gm == -got)) c.viol(std::string("law:C15/auxlat-deg/odd/") + mn, cls, J(w).f("neg_result", gm));
+    if (!(gm == -got)) VIOL(c, std::string("law:C15/auxlat-deg/odd/") + mn, cls, J(w).f("neg_result", gm));
   }
 }
 
@@ -341,16 +353,17 @@ static void sec_mono(Ctx& c, uint64_t idx) {
   int kind = (int)r.below(3);       // 0: geometric in the tangent over the whole range; 1: narrow window in degrees; 2: tangents a few 1e-12 apart
   std::string cls = std::string("mono/") + mn + "/" + AUXN[from] + "->" + AUXN[to] + "/" + (kind == 0 ? "whole-range" : kind == 1 ? "narrow-degrees" : "narrow-tangent");
   c.count(cls, vh::hmix(vh::hmix(vh::hmix(31, E.f), (uint64_t)idx), (uint64_t)kind));
+  Regime rg_(auxlat_regime(E.ba, E.f, exact, from == ref::AUX_XI || to == ref::AUX_XI, 0, 1));
   const int N = 1000; double prev_in = 0, prev_out = 0; q128 prev_T = -1; bool have = false;
   double d0 = r.uniform(0, 89.9), t0 = r.logu(1e-6, 1e6), lo = r.coin() ? -280 : -3, hi = -lo;
   for (int i = 0; i < N; ++i) {
     double in, out; q128 T;
-    if (kind == 1) { in = d0 + i * 1e-11; out = L.Convert(from, to, in, exact); if (have && !(out >= prev_out)) c.viol(std::string("law:C15/auxlat/monotone-degrees/") + mn, cls, J().obj("ell", jell(E)).str("from", AUXN[from]).str("to", AUXN[to]).f("in1", prev_in).f("in2", in).f("out1", prev_out).f("out2", out)); prev_in = in; prev_out = out; have = true; continue; }
+    if (kind == 1) { in = d0 + i * 1e-11; out = L.Convert(from, to, in, exact); if (have && !(out >= prev_out)) VIOL(c, std::string("law:C15/auxlat/monotone-degrees/") + mn, cls, J().obj("ell", jell(E)).str("from", AUXN[from]).str("to", AUXN[to]).f("in1", prev_in).f("in2", in).f("out1", prev_out).f("out2", out)); prev_in = in; prev_out = out; have = true; continue; }
     in = kind == 0 ? std::pow(10.0, lo + (hi - lo) * i / (N - 1.0)) : t0 * (1 + i * 1e-11);
     AuxAngle o = L.Convert(from, to, AuxAngle(in), exact);
     T = qtan_abs(o.y(), o.x());
     if (have && !(T >= prev_T) && !isnanq(T))
-      c.viol(std::string("law:C15/auxlat/monotone-tangent/") + mn, cls, J().obj("ell", jell(E)).str("from", AUXN[from]).str("to", AUXN[to]).f("tan_in1", prev_in).f("tan_in2", in).str("tan_out1", ref::qstr(prev_T)).str("tan_out2", ref::qstr(T)));
+      VIOL(c, std::string("law:C15/auxlat/monotone-tangent/") + mn, cls, J().obj("ell", jell(E)).str("from", AUXN[from]).str("to", AUXN[to]).f("tan_in1", prev_in).f("tan_in2", in).str("tan_out1", ref::qstr(prev_T)).str("tan_out2", ref::qstr(T)));
     if (!isnanq(T)) { prev_T = T; prev_in = in; have = true; }
   }
   c.event("monotone ladder steps checked", N - 1);
@@ -367,27 +380,27 @@ static void sec_auxangle(Ctx& c, uint64_t) {
   double e1 = ref::err_ulps(deg, ang * (180 / M_PIq)), e2 = ref::err_ulps(rad, ang);
   if (fabsq(ang) < 1e-290Q) { e1 = 0; e2 = 0; }       // gradual underflow inside atan2 (C16 covers atan2d)
   c.obs("AuxAngle degrees()/radians() err [ulp]", std::max(e1, e2), w);
-  if (!(e1 <= 4 && e2 <= 4)) c.viol("oracle:C15/auxangle/degrees-radians", cls, J(w).f("degrees", deg).f("radians", rad));
+  if (!(e1 <= 4 && e2 <= 4)) VIOL(c, "oracle:C15/auxangle/degrees-radians", cls, J(w).f("degrees", deg).f("radians", rad));
   // normalized(): on the unit circle, same direction
   AuxAngle n = a.normalized();
-  if (ti.y == 0 && ti.x == 0) { if (!std::isnan(n.y())) c.viol("oracle:C15/auxangle/normalized-00", cls, w); }
+  if (ti.y == 0 && ti.x == 0) { if (!std::isnan(n.y())) VIOL(c, "oracle:C15/auxangle/normalized-00", cls, w); }
   else {
     q128 hh = hypotq((q128)ti.y, (q128)ti.x), sy = (q128)ti.y / hh, sx = (q128)ti.x / hh;
     double en = (double)std::max(fabsq(n.y() - sy), fabsq(n.x() - sx)) / EPS;
     // relative accuracy of the small component
     double er = 0; if (sy != 0 && sx != 0 && fabsq(sy) > 1e-300Q && fabsq(sx) > 1e-300Q) er = (double)std::max(fabsq(n.y() - sy) / fabsq(sy), fabsq(n.x() - sx) / fabsq(sx)) / EPS;
     c.obs("AuxAngle normalized() abs err [eps]", en, w); c.obs("AuxAngle normalized() rel err of components [eps]", er, w);
-    if (!(en <= 2 && er <= 4)) c.viol("oracle:C15/auxangle/normalized", cls, J(w).f("ny", n.y()).f("nx", n.x()));
-    if (std::signbit(n.y()) != std::signbit(ti.y) || std::signbit(n.x()) != std::signbit(ti.x)) c.viol("law:C15/auxangle/normalized-quadrant", cls, w);
+    if (!(en <= 2 && er <= 4)) VIOL(c, "oracle:C15/auxangle/normalized", cls, J(w).f("ny", n.y()).f("nx", n.x()));
+    if (std::signbit(n.y()) != std::signbit(ti.y) || std::signbit(n.x()) != std::signbit(ti.x)) VIOL(c, "law:C15/auxangle/normalized-quadrant", cls, w);
   }
   // tan(), lam(), lamd()
   if (ti.x != 0) {
     q128 T = (q128)ti.y / (q128)ti.x; double t = a.tan();
-    if (fabsq(T) < (q128)DMAX && fabsq(T) > 1e-300Q) { double et = ref::err_ulps(t, T); if (!(et <= 1)) c.viol("oracle:C15/auxangle/tan", cls, J(w).f("tan", t)); }
+    if (fabsq(T) < (q128)DMAX && fabsq(T) > 1e-300Q) { double et = ref::err_ulps(t, T); if (!(et <= 1)) VIOL(c, "oracle:C15/auxangle/tan", cls, J(w).f("tan", t)); }
     if (fabsq(T) < 1e300Q && fabsq(T) > 1e-300Q) {
       q128 lam = asinhq(T); double el = std::max(ref::err_ulps(a.lam(), lam), ref::err_ulps(a.lamd(), lam * (180 / M_PIq)));
       c.obs("AuxAngle lam()/lamd() err [ulp]", el, w);
-      if (!(el <= 4)) c.viol("oracle:C15/auxangle/lam", cls, J(w).f("lam", a.lam()).f("lamd", a.lamd()));
+      if (!(el <= 4)) VIOL(c, "oracle:C15/auxangle/lam", cls, J(w).f("lam", a.lam()).f("lamd", a.lamd()));
     }
   }
   // factories: degrees(d), radians(r), lam(psi), lamd(psid)
@@ -395,34 +408,35 @@ static void sec_auxangle(Ctx& c, uint64_t) {
     double d = r.coin(0.3) ? r.uniform(-180, 180) : r.sign() * r.logu(1e-300, 180);
     AuxAngle f = AuxAngle::degrees(d); q128 s, co; ref::sincosd((q128)d, s, co);
     double e = (double)std::max(fabsq(f.y() - s), fabsq(f.x() - co)) / EPS;
-    if (!(e <= 2)) c.viol("oracle:C15/auxangle/factory-degrees", cls, J().f("d", d).f("y", f.y()).f("x", f.x()));
+    if (!(e <= 2)) VIOL(c, "oracle:C15/auxangle/factory-degrees", cls, J().f("d", d).f("y", f.y()).f("x", f.x()));
     double rr = d * (M_PI / 180); AuxAngle g = AuxAngle::radians(rr);
     double eg = (double)std::max(fabsq(g.y() - sinq((q128)rr)), fabsq(g.x() - cosq((q128)rr))) / EPS;
-    if (!(eg <= 2)) c.viol("oracle:C15/auxangle/factory-radians", cls, J().f("r", rr).f("y", g.y()).f("x", g.x()));
+    if (!(eg <= 2)) VIOL(c, "oracle:C15/auxangle/factory-radians", cls, J().f("r", rr).f("y", g.y()).f("x", g.x()));
     double psi = r.sign() * r.logu(1e-300, 700); AuxAngle hL = AuxAngle::lam(psi), hD = AuxAngle::lamd(psi / (M_PI / 180));
     q128 sh = sinhq((q128)psi);
     double eh = ref::err_ulps(hL.y() / hL.x(), sh);
     double psid = psi / (M_PI / 180); q128 shd = sinhq((q128)psid * (M_PIq / 180));
     double ehd = (double)(fabsq((q128)hD.y() / (q128)hD.x() - shd) / fabsq(shd)) / EPS / (1 + std::fabs(psi));   // psid*degree rounds once: amplified by |psi|
     c.obs("AuxAngle::lam(psi) err [ulp]", eh, J().f("psi", psi)); c.obs("AuxAngle::lamd(psid) rel err / (1+|psi|) [eps]", ehd, J().f("psid", psid));
-    if (!(eh <= 4)) c.viol("oracle:C15/auxangle/factory-lam", cls, J().f("psi", psi).f("y", hL.y()));
-    if (!(ehd <= 4)) c.viol("oracle:C15/auxangle/factory-lamd", cls, J().f("psid", psid).f("y", hD.y()));
+    if (!(eh <= 4)) VIOL(c, "oracle:C15/auxangle/factory-lam", cls, J().f("psi", psi).f("y", hL.y()));
+    if (!(ehd <= 4)) VIOL(c, "oracle:C15/auxangle/factory-lamd", cls, J().f("psid", psid).f("y", hD.y()));
   }
   // copyquadrant and operator+=
   {
     TanIn t2 = gen_tan(r); AuxAngle b(t2.y, t2.x), q = a.copyquadrant(b);
     if (!(std::fabs(q.y()) == std::fabs(a.y()) && std::fabs(q.x()) == std::fabs(a.x()) && std::signbit(q.y()) == std::signbit(b.y()) && std::signbit(q.x()) == std::signbit(b.x())))
-      c.viol("law:C15/auxangle/copyquadrant", cls, J(w).f("py", t2.y).f("px", t2.x));
+      VIOL(c, "law:C15/auxangle/copyquadrant", cls, J(w).f("py", t2.y).f("px", t2.x));
     AuxAngle an = a.normalized(), bn = b.normalized();
     if (!std::isnan(an.y()) && !std::isnan(bn.y())) {
       AuxAngle sum = an; sum += bn;
       q128 A = atan2q((q128)an.y(), (q128)an.x()) + atan2q((q128)bn.y(), (q128)bn.x());
       double es = (double)std::max(fabsq(sum.y() - sinq(A)), fabsq(sum.x() - cosq(A))) / EPS;
       c.obs("AuxAngle operator+= (normalized operands) abs err [eps]", es, w);
-      if (!(es <= 4)) c.viol(bn.y() == 0 && bn.x() < 0 ? "oracle:C15/auxangle/plus-equals/p=180deg-ignored" : "oracle:C15/auxangle/plus-equals", cls, J(w).f("py", t2.y).f("px", t2.x).f("sy", sum.y()).f("sx", sum.x()));
+      Regime rga_(bn.y() == 0 && bn.x() < 0 ? "regime:C15/auxangle/plus-equals/p=180deg" : "");
+      if (!(es <= 4)) VIOL(c, "oracle:C15/auxangle/plus-equals", cls, J(w).f("py", t2.y).f("px", t2.x).f("sy", sum.y()).f("sx", sum.x()));
     }
   }
-  AuxAngle nn = AuxAngle::NaN(); if (!(std::isnan(nn.y()) && std::isnan(nn.x()))) c.viol("law:C15/auxangle/NaN", cls, w);
+  AuxAngle nn = AuxAngle::NaN(); if (!(std::isnan(nn.y()) && std::isnan(nn.x()))) VIOL(c, "law:C15/auxangle/NaN", cls, w);
 }
 
 // ================================================================ section: ell  (Ellipsoid inspectors and wrappers)
@@ -432,7 +446,7 @@ static void rel_check(Ctx& c, const std::string& name, const std::string& cls, d
   else if (want == 0) e = std::fabs(got) <= floor_abs ? 0 : HUGE_VAL;
   else { q128 d = fabsq((q128)got - want) - (q128)floor_abs; if (d < 0) d = 0; e = (double)(d / fabsq(want)) / EPS; }
   c.obs(name + " rel err [eps]", e / (K / K_MEASURE), J(w).f("got", got).str("want", ref::qstr(want)));
-  if (!(e <= K)) c.viol(std::string("oracle:C15/") + name + keysuffix, cls, J(w).f("got", got).str("want", ref::qstr(want)).f("err_eps", e).f("tol_eps", K));
+  if (!(e <= K)) VIOL(c, std::string("oracle:C15/") + name + keysuffix, cls, J(w).f("got", got).str("want", ref::qstr(want)).f("err_eps", e).f("tol_eps", K));
 }
 static void sec_ell(Ctx& c, uint64_t idx) {
   vh::Rng& r = c.rng;
@@ -482,19 +496,15 @@ static void sec_ell(Ctx& c, uint64_t idx) {
       std::string nm = std::string("ellipsoid/") + (dir ? "Inverse" : "") + x.n + "Latitude";
       J w2(w); w2.f("got", got).str("want", ref::qstr(want)).f("err_tan_eps", err);
       c.obs(nm + " err as rel tan / conditioning [eps]", err / cond, w2);
-      if (!(err <= K_EXACT * cond)) {
-        std::string key = std::string("oracle:C15/") + nm;
-        if (x.k == ref::AUX_XI && E.ba > 4 && err <= 32 * E.ba * E.ba) key = "oracle:C15/auxlat/exact/xi/prolate-b/a>4";
-        else if (afbad && x.k >= 3 && err <= 2 / (E.ba * E.ba)) key = "oracle:C15/ellipsoid/latitudes/af-ctor/oblate-b/a<0.25";
-        c.viol(key, cls, w2);
-      }
+      Regime rg_(auxlat_regime(E.ba, E.f, true, x.k == ref::AUX_XI, 0, tph));
+      if (!(err <= K_EXACT * cond)) VIOL(c, std::string("oracle:C15/") + nm, cls, w2);
       // oddness and range
       double gm = dir == 0 ? (L.*x.fw)(-phi) : (L.*x.inv)(-phi);
-      if (!(gm == -got)) c.viol(std::string("law:C15/") + nm + "/odd", cls, w2);
-      if (!(std::fabs(got) <= 90)) c.viol(std::string("law:C15/") + nm + "/range", cls, w2);
-      if (std::fabs(phi) == 90 && got != phi) c.viol(std::string("law:C15/") + nm + "/fixed-point-90", cls, w2);
+      if (!(gm == -got)) VIOL(c, std::string("law:C15/") + nm + "/odd", cls, w2);
+      if (!(std::fabs(got) <= 90)) VIOL(c, std::string("law:C15/") + nm + "/range", cls, w2);
+      if (std::fabs(phi) == 90 && got != phi) VIOL(c, std::string("law:C15/") + nm + "/fixed-point-90", cls, w2);
       if (phi == 0 && got == 0 && std::signbit(got) != std::signbit(phi)) c.event("ellipsoid latitude wrapper: sign of zero not preserved (-0 -> +0)");
-      if (phi == 0 && !(got == 0)) c.viol(std::string("law:C15/") + nm + "/fixed-point-0", cls, w2);
+      if (phi == 0 && !(got == 0)) VIOL(c, std::string("law:C15/") + nm + "/fixed-point-0", cls, w2);
     }
     // round trip through the wrapper pair
     if (!tiny && std::fabs((L.*x.fw)(phi)) <= 90) {
@@ -504,12 +514,8 @@ static void sec_ell(Ctx& c, uint64_t idx) {
       (void)Y1; double e = deg_err_eps(bk, sgn * ref::tan_to_deg(R.inv(x.k, ref::tand_exact(std::fabs(fwv)))));
       double cond = x.k == ref::AUX_CHI ? chi_cond(R, t) : 1;
       c.obs(std::string("ellipsoid/") + x.n + " inverse(forward(phi)) vs oracle inverse of the rounded forward [tan eps] / conditioning", e / cond, w);
-      if (!(e <= K_EXACT * cond)) {
-        std::string key = std::string("law:C15/ellipsoid/roundtrip/") + x.n;
-        if (x.k == ref::AUX_XI && E.ba > 4 && e <= 64 * E.ba * E.ba) key = "oracle:C15/auxlat/exact/xi/prolate-b/a>4";
-        else if (afbad && x.k >= 3 && e <= 4 / (E.ba * E.ba)) key = "oracle:C15/ellipsoid/latitudes/af-ctor/oblate-b/a<0.25";
-        c.viol(key, cls, J(w).f("forward", fwv).f("back", bk).f("err_tan_eps", e));
-      }
+      Regime rg_(auxlat_regime(E.ba, E.f, true, x.k == ref::AUX_XI, 0, t));
+      if (!(e <= K_EXACT * cond)) VIOL(c, std::string("law:C15/ellipsoid/roundtrip/") + x.n, cls, J(w).f("forward", fwv).f("back", bk).f("err_tan_eps", e));
     }
   }
   // ---- isometric latitude (degrees)
@@ -517,15 +523,14 @@ static void sec_ell(Ctx& c, uint64_t idx) {
     double psi = L.IsometricLatitude(phi);
     if (std::fabs(phi) == 90) {
       double back = L.InverseIsometricLatitude(psi);
-      if (!(std::fabs(psi) > 1e3 && back == phi && std::signbit(psi) == std::signbit(phi))) c.viol("law:C15/ellipsoid/IsometricLatitude/pole", cls, J(w).f("psi", psi).f("back", back));
+      if (!(std::fabs(psi) > 1e3 && back == phi && std::signbit(psi) == std::signbit(phi))) VIOL(c, "law:C15/ellipsoid/IsometricLatitude/pole", cls, J(w).f("psi", psi).f("back", back));
       // documentation: "some (positive or negative) large but finite value"
-      else if (!std::isfinite(psi)) c.viol("law:C15/ellipsoid/IsometricLatitude/pole-value-documented-finite-is-inf", cls, J(w).f("psi", psi).f("back", back));
+      else if (!std::isfinite(psi)) VIOL(c, "law:C15/ellipsoid/IsometricLatitude/pole-value-documented-finite-is-inf", cls, J(w).f("psi", psi).f("back", back));
     } else if (!tiny) {
       q128 want = sgn * R.psi(t) * (180 / M_PIq);
       // psi = asinh(tan chi): inherits the relative tangent error of chi (times tanh-like factor <= 1)
       double cond = chi_cond(R, t);
-      std::string key = afbad ? "/af-ctor/oblate-b/a<0.25" : "";
-      rel_check(c, "ellipsoid/IsometricLatitude", cls, psi, want, (afbad ? 2 / (E.ba * E.ba) : K_EXACT * cond), w, 64 * DMIN, key.c_str());
+      rel_check(c, "ellipsoid/IsometricLatitude", cls, psi, want, K_EXACT * cond, w, 64 * DMIN);
       // inverse: tan(chi) = sinh(psi * degree): one rounding of psi*degree is amplified by |psi| (radians)
       if (!tiny) {
         double back = L.InverseIsometricLatitude(psi);
@@ -534,7 +539,7 @@ static void sec_ell(Ctx& c, uint64_t idx) {
           q128 tp = R.inv(ref::AUX_CHI, tchi); double e = deg_err_eps(back, sgn * ref::tan_to_deg(tp));
           double cnd = cond * (1 + (double)fabsq(pr));
           c.obs("ellipsoid/InverseIsometricLatitude err as rel tan / conditioning [eps]", e / cnd, J(w).f("psi", psi).f("back", back));
-          if (!(e <= K_EXACT * cnd)) c.viol(afbad && e <= 4 / (E.ba * E.ba) ? "oracle:C15/ellipsoid/latitudes/af-ctor/oblate-b/a<0.25" : "oracle:C15/ellipsoid/InverseIsometricLatitude", cls, J(w).f("psi", psi).f("back", back).f("err_tan_eps", e));
+          if (!(e <= K_EXACT * cnd)) VIOL(c, "oracle:C15/ellipsoid/InverseIsometricLatitude", cls, J(w).f("psi", psi).f("back", back).f("err_tan_eps", e));
         }
       }
     }
@@ -554,10 +559,7 @@ static void sec_ell(Ctx& c, uint64_t idx) {
     rel_check(c, "ellipsoid/NormalCurvatureRadius", cls, L.NormalCurvatureRadius(phi, azi), R.normal_radius(sq, sa, ca), K_MEASURE * (1 + 1.5 * (cv - 1) + (double)fabsq(R.e2 / (1 - R.e2))), J(w).f("azi", azi));
     q128 md = sgn * R.a * R.merid(t);
     double gotmd = L.MeridianDistance(phi);
-    if (afbad) { double e = (double)(fabsq(gotmd - md) / fabsq(md == 0 ? (q128)1 : md)) / EPS; c.obs("ellipsoid/MeridianDistance rel err [eps] (af-ctor b/a<0.25)", e, w);
-      if (!(e <= 2 / (E.ba * E.ba))) c.viol("oracle:C15/ellipsoid/MeridianDistance", cls, J(w).f("got", gotmd).str("want", ref::qstr(md)));
-      else if (!(e <= 2 * K_MEASURE)) c.viol("oracle:C15/ellipsoid/latitudes/af-ctor/oblate-b/a<0.25", cls, J(w).f("MeridianDistance", gotmd).str("want", ref::qstr(md)).f("err_eps", e)); }
-    else rel_check(c, "ellipsoid/MeridianDistance", cls, gotmd, md, 2 * K_MEASURE, w, 64 * DMIN * E.a);
+    rel_check(c, "ellipsoid/MeridianDistance", cls, gotmd, md, 2 * K_MEASURE, w, 64 * DMIN * E.a);
     if (std::fabs(phi) == 90) rel_check(c, "ellipsoid/MeridianDistance(90)==QuarterMeridian", cls, std::fabs(gotmd), (q128)L.QuarterMeridian(), 4, w);
   }
   // ---- out-of-range latitude -> NaN
@@ -565,7 +567,7 @@ static void sec_ell(Ctx& c, uint64_t idx) {
     double bad = r.sign() * vh::ulps(90.0, r.range(1, 3));
     if (!(std::isnan(L.ParametricLatitude(bad)) && std::isnan(L.RectifyingLatitude(bad)) && std::isnan(L.IsometricLatitude(bad)) && std::isnan(L.CircleRadius(bad)) &&
           std::isnan(L.MeridianDistance(bad)) && std::isnan(L.MeridionalCurvatureRadius(bad)) && std::isnan(L.InverseAuthalicLatitude(bad))))
-      c.viol("law:C15/ellipsoid/latitude-beyond-90-gives-nan", cls, J(w).f("bad", bad));
+      VIOL(c, "law:C15/ellipsoid/latitude-beyond-90-gives-nan", cls, J(w).f("bad", bad));
     c.count("ell/out-of-range-latitude", vh::hmix(53, bad), true);
   }
 }
@@ -663,7 +665,8 @@ static void sec_cross(Ctx& c, uint64_t idx) {
     double back = Math::tauf(taup, es); double eb = std::fabs(back - tau) / std::fabs(tau) / EPS;
     bool extreme = E.ba > 3 || E.ba < 0.1;
     c.obs(extreme ? "cross/Math::tauf(taupf(tau)) rel err [eps] (b/a>3 or <0.1)" : "cross/Math::tauf(taupf(tau)) rel err [eps]", eb, J(w).f("tau", tau).f("back", back));
-    if (!(eb <= K_EXACT * cond * ces)) c.viol(extreme ? "cross:C15/Math::tauf-roundtrip/extreme-eccentricity" : "cross:C15/Math::tauf-roundtrip", cls, J(w).f("tau", tau).f("es", es).f("taup", taup).f("back", back).f("err_eps", eb));
+    Regime rgt_(extreme ? "regime:C15/cross/Math::tauf/b/a>3-or-<0.1" : "");
+    if (!(eb <= K_EXACT * cond * ces)) VIOL(c, "cross:C15/Math::tauf-roundtrip", cls, J(w).f("tau", tau).f("es", es).f("taup", taup).f("back", back).f("err_eps", eb));
     // ... and agree with Ellipsoid::InverseConformalLatitude
     if (!extreme && !afbad) {
       double ph1 = L.InverseConformalLatitude(Math::atand(taup)), ph2 = Math::atand(back);
@@ -671,7 +674,7 @@ static void sec_cross(Ctx& c, uint64_t idx) {
       double e = scl == 0 ? 0 : (double)((d - 8 * (q128)ref::ulp_d(ph2) > 0 ? d - 8 * (q128)ref::ulp_d(ph2) : 0) * (M_PIq / 180) / scl) / EPS;
       c.obs("cross/InverseConformalLatitude-vs-Math::tauf [tan eps] / conditioning", e / (cond * ces), J(w).f("taup", taup));
       // chi is handed to the wrapper as a rounded number of degrees: near the pole that alone is a relative tangent error of ~ eps |taup|
-      if (!(e <= 2 * K_EXACT * cond * ces + 4 * std::max(1.0, std::fabs(taup)))) c.viol("cross:C15/InverseConformalLatitude-vs-Math::tauf", cls, J(w).f("taup", taup).f("es", es).f("ellipsoid", ph1).f("tauf", ph2));
+      if (!(e <= 2 * K_EXACT * cond * ces + 4 * std::max(1.0, std::fabs(taup)))) VIOL(c, "cross:C15/InverseConformalLatitude-vs-Math::tauf", cls, J(w).f("taup", taup).f("es", es).f("ellipsoid", ph1).f("tauf", ph2));
     }
   }
 }
@@ -713,7 +716,7 @@ static void sec_daux(Ctx& c, uint64_t idx) {
     c.count(cls + "/" + nm, vh::hmix(vh::hmix(vh::hmix(81, E.f), d1), d2) ^ vh::hstr(nm.c_str()));
     double e = (double)(fabsq((q128)got - want) / fabsq(want)) / EPS;
     c.obs(std::string("daux/") + (nm.compare(0, 8, "DConvert") == 0 ? std::string("DConvert") : nm) + " rel err [eps] (" + sc + ")", e, J(w).str("fn", nm).f("got", got).str("want", ref::qstr(want)));
-    if (!(e <= K)) c.viol(std::string("oracle:C15/daux/") + nm, cls, J(w).f("got", got).str("want", ref::qstr(want)).f("err_eps", e).f("tol_eps", K)); };
+    if (!(e <= K)) VIOL(c, std::string("oracle:C15/daux/") + nm, cls, J(w).f("got", got).str("want", ref::qstr(want)).f("err_eps", e).f("tol_eps", K)); };
   bool afbad = E.ba < 0.25, xibad = E.ba > 4;
   // DConvert (series) for one random pair of kinds
   if (E.series_ok) {
@@ -724,7 +727,7 @@ static void sec_daux(Ctx& c, uint64_t idx) {
   // exact divided differences w.r.t. geographic latitude
   {
     { double got = L.DParametric(z1, z2);
-      if (std::isnan(got) && !same) { c.count(cls + "/DParametric", vh::hmix(vh::hmix(84, d1), d2)); c.viol("oracle:C15/daux/DParametric/nan-for-ulp-close-tangents", cls, J(w).f("got", got).str("want", ref::qstr(dd(0, ref::AUX_BETA)))); }
+      if (std::isnan(got) && !same) { c.count(cls + "/DParametric", vh::hmix(vh::hmix(84, d1), d2)); VIOL(c, "oracle:C15/daux/DParametric/nan-for-ulp-close-tangents", cls, J(w).f("got", got).str("want", ref::qstr(dd(0, ref::AUX_BETA)))); }
       else judge("DParametric", got, dd(0, ref::AUX_BETA), K_DD); }
     {
       // DE() forms d = y - x from two atan2 angles: for nearly equal latitudes close to 90 deg (oblate) / 0 deg (prolate, axes
@@ -732,17 +735,17 @@ static void sec_daux(Ctx& c, uint64_t idx) {
       double got = L.DRectifying(z1, z2); q128 want = dd(0, ref::AUX_MU);
       double e = (double)(fabsq((q128)got - want) / fabsq(want)) / EPS;
       double angmax = (double)(R.prolate ? M_PIq / 2 - (fabsq(A1) < fabsq(A2) ? fabsq(A1) : fabsq(A2)) : (fabsq(A1) > fabsq(A2) ? fabsq(A1) : fabsq(A2)));   // size of the angles DE() subtracts
-      double model = same || d1 * d2 < 0 || fabsq(Dl) > 0.1Q ? 0 : 4 * angmax / (double)fabsq(Dl);
-      if (std::isnan(got) && !same) { c.count(cls + "/DRectifying", vh::hmix(vh::hmix(86, d1), d2)); c.viol("oracle:C15/daux/DParametric/nan-for-ulp-close-tangents", cls, J(w).str("via", "DRectifying").f("got", got).str("want", ref::qstr(want))); }
-      else if (e > K_DD && d1 * d2 < 0 && std::fabs(d1 * (M_PI / 180)) * std::fabs(d2 * (M_PI / 180)) < 2.3e-308) { c.count(cls + "/DRectifying", vh::hmix(vh::hmix(87, d1), d2));
-        // x*y underflows, so the "opposite signs" test x*y < 0 fails and the same-sign formula is applied
-        c.viol("oracle:C15/daux/DRectifying/opposite-sign-product-underflow", cls, J(w).f("got", got).str("want", ref::qstr(want)).f("err_eps", e)); }
-      else if (e > K_DD && e <= model) { c.count(cls + "/DRectifying", vh::hmix(vh::hmix(85, d1), d2)); c.obs("daux/DRectifying rel err [eps] / (4 max|angle|/|Delta|)  (cancellation regime, |Delta|<=0.1 rad)", e / model, J(w).f("got", got).str("want", ref::qstr(want)));
-        c.viol("oracle:C15/daux/DRectifying/angle-difference-cancellation", cls, J(w).f("got", got).str("want", ref::qstr(want)).f("err_eps", e)); }
-      else if (e > K_DD && E.ba < 0.05 && e <= 2 / (E.ba * E.ba)) { c.count(cls + "/DRectifying", vh::hmix(vh::hmix(88, d1), d2));
-        // extreme oblate ellipsoids: DRectifying loses ~1e2..1e3 eps although the rectifying latitude itself is accurate
-        c.obs("daux/DRectifying rel err [eps] (oblate b/a<0.05)", e, J(w).f("got", got).str("want", ref::qstr(want)));
-        c.viol("oracle:C15/daux/DRectifying/oblate-b/a<0.05", cls, J(w).f("got", got).str("want", ref::qstr(want)).f("err_eps", e)); }
+      // regimes (inputs only, fixed order): 1 opposite signs with an underflowing product (the x*y<0 test fails);
+      // 2 distinct same-sign latitudes closer than 0.1 rad (d = y - x of two atan2 angles cancels); 3 extreme oblate b/a < 0.05
+      std::string rk;
+      bool opp = d1 != 0 && d2 != 0 && (d1 < 0) != (d2 < 0), samesign = d1 != 0 && d2 != 0 && (d1 < 0) == (d2 < 0);
+      if (opp && std::fabs(d1 * (M_PI / 180)) * std::fabs(d2 * (M_PI / 180)) < 2.3e-308) rk = "regime:C15/daux/DRectifying/opposite-sign-product-underflow";
+      else if (!same && samesign && fabsq(Dl) <= 0.1Q) { rk = "regime:C15/daux/DRectifying/same-sign-|dphi|<=0.1rad";
+        if (e > K_DD) c.obs("daux/DRectifying rel err [eps] / (4 max|angle|/|Delta|)  (cancellation regime, |Delta|<=0.1 rad)", e / (4 * angmax / (double)fabsq(Dl)), J(w).f("got", got).str("want", ref::qstr(want))); }
+      else if (E.ba < 0.05) { rk = "regime:C15/daux/DRectifying/oblate-b/a<0.05"; c.obs("daux/DRectifying rel err [eps] (oblate b/a<0.05)", e, J(w).f("got", got).str("want", ref::qstr(want))); }
+      Regime rg_(rk);
+      if (std::isnan(got) && !same) { c.count(cls + "/DRectifying", vh::hmix(vh::hmix(86, d1), d2)); VIOL(c, "oracle:C15/daux/DRectifying/nan", cls, J(w).f("got", got).str("want", ref::qstr(want))); }
+      else if (!rk.empty() && e > K_DD) { c.count(cls + "/DRectifying", vh::hmix(vh::hmix(85, d1), d2)); VIOL(c, "oracle:C15/daux/DRectifying", cls, J(w).f("got", got).str("want", ref::qstr(want)).f("err_eps", e)); }
       else judge("DRectifying", got, want, K_DD);
     }
     if (std::fabs(d1) < 90 && std::fabs(d2) < 90) {
@@ -765,7 +768,7 @@ static void sec_daux(Ctx& c, uint64_t idx) {
       q128 den = fabsq(want); if (x * y < 0 && (nm == "Dp0Dpsi" || nm == "Dh")) { q128 a1 = fabsq((q128)x) < fabsq((q128)y) ? fabsq((q128)x) : fabsq((q128)y); a1 = a1 / hypotq(1, a1) / 2; if (a1 > den) den = a1; }   // numerator cancels for x ~ -y
       double e = (double)(fabsq((q128)got - want) / den) / EPS;
       c.obs(std::string("daux-static/") + nm + " rel err [eps]", e, J(w2).f("got", got).str("want", ref::qstr(want)));
-      if (!(e <= K)) c.viol(std::string("oracle:C15/daux-static/") + nm, std::string("daux-static/") + nm, J(w2).f("got", got).str("want", ref::qstr(want)).f("err_eps", e)); };
+      if (!(e <= K)) VIOL(c, std::string("oracle:C15/daux-static/") + nm, std::string("daux-static/") + nm, J(w2).f("got", got).str("want", ref::qstr(want)).f("err_eps", e)); };
     // divided differences of elementary functions in 1200-bit MPFR arithmetic (exact to far below binary128)
     auto mpdd = [&](int fn, int gn) -> q128 {   // (f(y)-f(x)) / (g(y)-g(x)); fn/gn: 0 id, 1 atan, 2 asinh, 3 sn, 4 h, 5 log sec
       auto ev = [&](int k, double v, ref::MP& o) { ref::MP t(1200), u(1200); t.set(v);
@@ -806,12 +809,12 @@ static void sec_daux(Ctx& c, uint64_t idx) {
     (void)Delta;
     c.count(std::string("daux/DClenshaw/") + sc + (unit ? "/Delta=1" : "/Delta=angle"), vh::hmix(vh::hmix(83, d1), d2));
     c.obs("daux/DClenshaw abs err / sum|c_k|(2k+2) [eps]", e, J(w).b("sinp", sinp).b("unit", unit).f("got", got).str("want", ref::qstr(want)));
-    if (!(e <= 32)) c.viol("oracle:C15/daux/DClenshaw", cls, J(w).b("sinp", sinp).b("unit", unit).f("got", got).str("want", ref::qstr(want)).f("err_eps", e));
+    if (!(e <= 32)) VIOL(c, "oracle:C15/daux/DClenshaw", cls, J(w).b("sinp", sinp).b("unit", unit).f("got", got).str("want", ref::qstr(want)).f("err_eps", e));
     // plain Clenshaw
     double g1 = AuxLatitude::Clenshaw(sinp, n1.y(), n1.x(), cs, 6); q128 sc1 = scale;
     double e1 = (double)(fabsq((q128)g1 - sumq(B1)) / sc1) / EPS;
     c.obs("auxlat/Clenshaw abs err / sum|c_k|(2k+2) [eps]", e1, w);
-    if (!(e1 <= 16)) c.viol("oracle:C15/auxlat/Clenshaw", cls, J(w).b("sinp", sinp).f("got", g1).str("want", ref::qstr(sumq(B1))));
+    if (!(e1 <= 16)) VIOL(c, "oracle:C15/auxlat/Clenshaw", cls, J(w).b("sinp", sinp).f("got", g1).str("want", ref::qstr(sumq(B1))));
   }
 }
 
